@@ -47,6 +47,9 @@ def main(tier, seed):
     # completion pending), and exceptions that cross a module boundary on their way to the handler (whose globals must be its own)
     profcheck.run_scenarios(rep, "switchcontexts", scenarios.fiber_switch_context_scenarios(), bins, PROP)
     profcheck.run_scenarios(rep, "crossmodule", scenarios.cross_module_scenarios(), bins, PROP)
+    # two fibers suspended inside finally blocks with their exceptions waiting (the ending in which one of them runs a catch clause meanwhile
+    # is the recorded finding about the interpreter-wide flag, attributed by its trigger)
+    profcheck.run_scenarios(rep, "interleaved", scenarios.interleaved_failure_scenarios(), bins, PROP)
     # implementation -> specification on the repository's OWN scripts: the control events of all of them (handler pushes / pops,
     # landings, frame and fiber changes) must be a behaviour TraceVm.tla allows, on both builds
     items, modules = vlib.corpus()
